@@ -891,7 +891,7 @@ func (e *Env) recCall(m *Macro, args []TV) (TV, error) {
 		app = Term{fname, rsort}
 	}
 	// one unfolding of the defining equation at these arguments ("fuel 1")
-	if !e.noUnfold && (!e.bound || e.unfolds != nil) {
+	if !e.noUnfold && (!e.bound || (e.unfolds != nil && !m.Def)) {
 		key := "unfold:" + app.S
 		if e.bound || !vc.declared[key] {
 			vars := map[string]TV{}
